@@ -6,11 +6,13 @@ package discovery
 //@ pred validAPIResource(r) = r != nil && ufb_validGroupVersion(r.APIVersion)
 
 //@ func ResourceMap.Get(rm, apiVersion, resource) (result)
+//@   pure
 //@   trusted entries are built by refresh() from group versions that schema.ParseGroupVersion accepted
 //@   requires rm != nil
 //@   ensures result != nil ==> validAPIResource(result)
 
 //@ func ResourceMap.GetKind(rm, apiVersion, kind) (result)
+//@   pure
 //@   trusted entries are built by refresh() from group versions that schema.ParseGroupVersion accepted
 //@   requires rm != nil
 //@   ensures result != nil ==> validAPIResource(result)
